@@ -11,17 +11,14 @@ variable (ctx : BCtx)
 
 /-- **T5.3 (a warning per `no match`).** Every `no match` statement the builder makes through
 `noMatchAt` carries the warning `<pos>: no assignment for <lhs> [<type>]` as its last stderr line. -/
-theorem noMatch_has_warning (pos : String) (lhs : Node) (pre : List String) (s : Stmt)
-    (h : ctx.noMatchAt pos lhs pre = .ok s) :
-    ∃ tn, ctx.env.typeNameF (lhs.exprType ctx.env) = some tn ∧
-      s = .noMatch lhs (pre ++ [s!"{pos}: no assignment for {lhs.assignExpr ctx.env} [{tn}]"]) := by
-  unfold BCtx.noMatchAt BCtx.noAssignmentWarn at h
-  cases htn : ctx.env.typeNameF (lhs.exprType ctx.env) with
-  | none => simp [htn] at h
-  | some tn =>
-    simp only [htn] at h
-    cases h
-    exact ⟨tn, rfl, rfl⟩
+theorem noMatch_has_warning (pos : String) (lhs : Node) (pre : List String) :
+    ctx.noMatchAt pos lhs pre =
+      .ok (.noMatch lhs (pre ++
+        [s!"{pos}: no assignment for {lhs.assignExpr ctx.env} [{ctx.env.typeNameF (lhs.exprType ctx.env)}]"])) := rfl
+
+/-- since the repair of DESIGN §5 #20 printing that warning cannot crash: `noMatchAt` always succeeds -/
+theorem noMatchAt_ok (pos : String) (lhs : Node) (pre : List String) : ∃ s, ctx.noMatchAt pos lhs pre = .ok s :=
+  ⟨_, rfl⟩
 
 /-- **T5.2 (invisible members are never mentioned).** `structToStruct` only ever builds statements
 for destination members that pass the accessibility test. -/
@@ -39,7 +36,7 @@ theorem imported_unexported_inaccessible (structNode : Node) (leaf : String)
   simp only
   split
   · rfl
-  · simp [hn, hext, hunexp]
+  · simp [hext, hunexp]
 
 /-! ### finding (DESIGN §5 #14): a nested by-value struct pair whose destination side has no
 accessible member yields no line at all — the `dropped` statement renders to nothing. -/
